@@ -35,10 +35,14 @@
    6. `config_derivation`, `layout_constants_static`, `layout_constants_dynamic`.
    7. `public_input_recorded`.
    8. `load_total`, `load_all_or_nothing`.
+   9. the tiling of the prover messages (`prover_messages_tile`), for arbitrary line lists: `tiles_total_bytes`,
+      `tiles_concat`, `removed_message_fails`, `swapped_messages_fail`, `shifted_range_fails`
+      (`duplicated_message_fails`, `tiles_step`, `tiles_skip` in section 1).
    Non-vacuity: `example_loads` (kernel-checked, from the recorded values), `#guard`s on the JSON text in
    `Proofs/LoaderExample.lean` (Lean's JSON parser is `partial`, so the text level is checked by evaluation).
 -/
 import Swiftness.Proofs.LoaderExample
+import Swiftness.Proofs.LoaderTiles
 
 namespace Swiftness.C19
 
@@ -101,11 +105,12 @@ theorem unparsable_line_fails {r : RawFile} {l e : String} (hl : l ∈ r.annotat
   exact convert_error_of_annotations h
 
 /-- A converted file's prover messages TILE the proof (`Loader.tiles`): the first `P->V[a:b]` range starts at byte 0,
-    every range starts where the previous one ended and spans 32 bytes per value it carries.  (This is the check the
+    every range starts where the previous one ended and spans 32 bytes per value it carries; and when the file carries
+    `proof_hex`, the last range ends at its last byte (a file whose trailing message lines are missing is truncated).  (This is the check the
     real parser gained with the fix "reject annotation streams that are malformed, out of order or not fully
     consumed"; removal, duplication or reordering of a message line breaks the tiling.) -/
 theorem prover_messages_tile {r : RawFile} {p : Stark.Proof} (h : convert r = .ok p) :
-    ∃ n, tiles r.annotations 0 = .ok n :=
+    ∃ n, tiles r.annotations 0 = .ok n ∧ ∀ m, r.proofBytes = some m → n = m :=
   convert_tiles h
 
 /-- a converted file carries exactly one commitment per inner FRI layer (`fri_step_list` has one entry per layer
@@ -318,5 +323,81 @@ example : exampleProof.witness.tracesInteractionAuths = [0x62, 0x63] ∧
     collect (isTraceAuth 1) exampleItems = authsDataThenHash 1 exampleItems :=
   ⟨rfl, data_hash_order_coincide 1 exampleItems (by decide)⟩
 
-end Swiftness.C19
+/-! ## 9. the tiling of the prover messages, for arbitrary line lists -/
 
+/-- THE BYTES COVERED.  An accepted line list moves the cursor forward by exactly 32 bytes per value carried by its
+    prover messages (`l.filterMap item?` = the messages, in stream order; non-message lines contribute nothing).  For
+    a converted file (`cursor 0`) the result is therefore the byte length of the proof the annotations describe. -/
+theorem tiles_total_bytes {l : List String} {a n : Nat} (h : tiles l a = .ok n) :
+    a ≤ n ∧ n = a + 32 * ((l.filterMap item?).map (·.values.length)).sum :=
+  ⟨tiles_ge h, tiles_bytes h⟩
+
+/-- the tiling check of a concatenation: `l1` from the cursor `a`, then `l2` from the cursor `l1` leaves; an error
+    in `l1` is the error of the whole -/
+theorem tiles_concat (l1 l2 : List String) (a : Nat) :
+    tiles (l1 ++ l2) a = (tiles l1 a).bind (fun b => tiles l2 b) :=
+  tiles_append l1 l2 a
+
+/-- A REMOVED MESSAGE LINE is detected.  If a stream tiles and one of its message lines `s` (carrying at least one
+    value) is removed, the remaining stream does not tile any more — provided some message line (with or without
+    values) comes after `s`: that line starts where `s` ended, not where `s` started.  When `s` is the LAST message
+    line its removal is NOT visible to the tiling (the remaining lines tile a proof that is shorter by
+    `32 · it.values.length` bytes, `tiles_total_bytes`); nothing is claimed for that case. -/
+theorem removed_message_fails {l1 l2 : List String} {s : String} {a n : Nat} {it : Item}
+    (h : tiles (l1 ++ s :: l2) a = .ok n) (hl : parseLine s = .ok (some it)) (hv : it.values ≠ [])
+    (hm : ∃ t it', t ∈ l2 ∧ parseLine t = .ok (some it')) :
+    ∃ e, tiles (l1 ++ l2) a = .error e :=
+  Loader.removed_message_fails h hl hv hm
+
+/-- TWO ADJACENT MESSAGE LINES SWAPPED are detected: if `… s t …` tiles then `… t s …` does not (`s` carries at
+    least one value, `t` is any message line): `t` starts where `s` ended, which is not where `s` started. -/
+theorem swapped_messages_fail {l1 l2 : List String} {s t : String} {a n : Nat} {is it : Item}
+    (h : tiles (l1 ++ s :: t :: l2) a = .ok n) (hs : parseLine s = .ok (some is)) (hv : is.values ≠ [])
+    (ht : parseLine t = .ok (some it)) :
+    ∃ e, tiles (l1 ++ t :: s :: l2) a = .error e :=
+  Loader.swapped_messages_fail h hs hv ht
+
+/-- A SHIFTED RANGE is detected.  Acceptance pins the range of every message line: it is `[b : b + 32·k]` with `b`
+    the cursor the preceding lines leave and `k` the number of its values (`tiles_step`).  Hence a message line `s'`
+    carrying as many values as `s` but a different range cannot take the place of `s`. -/
+theorem shifted_range_fails {l1 l2 : List String} {s s' : String} {a n : Nat} {it it' : Item}
+    (h : tiles (l1 ++ s :: l2) a = .ok n) (hl : parseLine s = .ok (some it))
+    (hl' : parseLine s' = .ok (some it')) (hk : it'.values.length = it.values.length)
+    (hr : lineRange? s' ≠ lineRange? s) :
+    ∃ e, tiles (l1 ++ s' :: l2) a = .error e :=
+  Loader.shifted_range_fails h hl hl' hk hr
+
+/-! non-vacuity of section 9: three message lines (the three trace commitments of the example file) -/
+
+/-- `P->V[0:32]`, `P->V[32:64]`, `P->V[64:96]` -/
+def threeLines : List String :=
+  ["P->V[0:32]: /cpu air/STARK/Original/Commit on Trace: Commitment: Hash(0x11)",
+   "P->V[32:64]: /cpu air/STARK/Interaction/Commit on Trace: Commitment: Hash(0x12)",
+   "P->V[64:96]: /cpu air/STARK/Out Of Domain Sampling/Commit on Trace: Commitment: Hash(0x13)"]
+
+theorem threeLines_tile : tiles threeLines 0 = .ok 96 := by decide +kernel
+
+/-- they tile 96 = 0 + 32·3 bytes; without the middle line, with the first two swapped, or with the middle line's
+    range shifted to `[40:72]`, they do not tile -/
+example :
+    (0 ≤ 96 ∧ 96 = 0 + 32 * ((threeLines.filterMap item?).map (·.values.length)).sum) ∧
+    (∃ e, tiles ["P->V[0:32]: /cpu air/STARK/Original/Commit on Trace: Commitment: Hash(0x11)",
+                 "P->V[64:96]: /cpu air/STARK/Out Of Domain Sampling/Commit on Trace: Commitment: Hash(0x13)"] 0
+            = .error e) ∧
+    (∃ e, tiles ["P->V[32:64]: /cpu air/STARK/Interaction/Commit on Trace: Commitment: Hash(0x12)",
+                 "P->V[0:32]: /cpu air/STARK/Original/Commit on Trace: Commitment: Hash(0x11)",
+                 "P->V[64:96]: /cpu air/STARK/Out Of Domain Sampling/Commit on Trace: Commitment: Hash(0x13)"] 0
+            = .error e) ∧
+    (∃ e, tiles ["P->V[0:32]: /cpu air/STARK/Original/Commit on Trace: Commitment: Hash(0x11)",
+                 "P->V[40:72]: /cpu air/STARK/Interaction/Commit on Trace: Commitment: Hash(0x12)",
+                 "P->V[64:96]: /cpu air/STARK/Out Of Domain Sampling/Commit on Trace: Commitment: Hash(0x13)"] 0
+            = .error e) :=
+  ⟨tiles_total_bytes threeLines_tile,
+   removed_message_fails (l1 := [_]) (it := ⟨.traceCommit 1, .hash, [0x12]⟩) threeLines_tile
+     (by decide +kernel) (by decide) ⟨_, ⟨.traceCommit 2, .hash, [0x13]⟩, List.mem_singleton.2 rfl, by decide +kernel⟩,
+   swapped_messages_fail (l1 := []) (is := ⟨.traceCommit 0, .hash, [0x11]⟩) (it := ⟨.traceCommit 1, .hash, [0x12]⟩)
+     threeLines_tile (by decide +kernel) (by decide) (by decide +kernel),
+   shifted_range_fails (l1 := [_]) (it := ⟨.traceCommit 1, .hash, [0x12]⟩) (it' := ⟨.traceCommit 1, .hash, [0x12]⟩)
+     threeLines_tile (by decide +kernel) (by decide +kernel) rfl (by decide +kernel)⟩
+
+end Swiftness.C19
